@@ -201,9 +201,55 @@ def pre_removal(ctx, rule='A14p'):
                             not ucfg.can_reach(t_, n_, blocked_edges={(t_.id, m_.id, lab_) for m_, lab_ in t_.succ
                                                                       if lab_ == lab_over}) for n_ in alls):
                 ok = True
+                overflow_site = (u, ucfg, alls)
     ctx.ob(rule, fkey(fn, rule, 'permutation-overflow'), ok, fn.where,
-           'PERMUTATION: all options are removed exactly when there are more choices than the largest option '
+           'PERMUTATION: all options are removed only when there are more choices than the largest option '
            'count (no injective assignment exists)', '')
+    # ... and only when every constrained choice is permanent: choices that are not active together are unconstrained,
+    # so with conditionally active choices fewer of them may have to differ than there are options (F25); the same
+    # condition the UNORDERED_NOREPL window carries
+    if ok:
+        u, ucfg, alls = overflow_site
+
+        def all_permanent(atom, truth):
+            if isinstance(atom, ast.Name):
+                atom = expand_locals(u, atom, 1)        # a flag holding the test
+            if truth is not True or not (isinstance(atom, ast.Call) and norm(atom.func) == 'all' and
+                                         len(atom.args) == 1):
+                return False
+            g_ = atom.args[0]
+            return isinstance(g_, (ast.GeneratorExp, ast.ListComp)) and isinstance(g_.elt, ast.Compare) and \
+                len(g_.elt.ops) == 1 and isinstance(g_.elt.ops[0], ast.In) and \
+                norm(g_.elt.comparators[0]) == perm_p
+        ge = ucfg.edges_implying(all_permanent)
+        ok2 = bool(ge) and all(not ucfg.can_reach(ucfg.entry, n_, blocked_edges=ge) for n_ in alls)
+        detail2 = f'{len(ge)} edge(s) imply the all-permanent test'
+        if not ok2:
+            # path-sensitive second opinion (the test may be split over a flag and several guard clauses): interpret
+            # the function abstractly; every path that returns the "all options" list assumes the all-permanent test
+            from ..rules import absint
+            try:
+                hs = {h.node.name: h for h in unit_functions(ctx.prog, u)[1:]}
+                paths = absint.Interp(u, hs, split_tests=True).run()
+                def all_removed(q):
+                    # the list of (choice, <all its options>) pairs: options indexed, not filtered
+                    t_ = absint.fmt(absint._t(q.outcome[1])) if q.outcome[0] == 'return' else ''
+                    return '.options' in t_ and 'index(' in t_ and 'enumerate' in t_ and 'filtered(' not in t_
+                rem = [q for q in paths if all_removed(q)]
+
+                def assumes_all_permanent(q):
+                    return any(v_ is True and isinstance(t_, tuple) and t_[:2] == ('call', ('name', 'all')) and
+                               perm_p in absint.fmt(t_) for t_, v_ in q.conds)
+                if rem:
+                    ok2 = all(assumes_all_permanent(q) for q in rem)
+                    detail2 = f'{len(rem)} interpreted path(s) return all options; ' + \
+                        ('each assumes the all-permanent test' if ok2 else 'one does not assume the all-permanent test')
+            except AnalysisError:
+                pass
+        ctx.ob(rule, fkey(fn, rule, 'permutation-overflow-only-if-all-permanent'), ok2, fn.where,
+               'PERMUTATION: the options are removed up front only when every constrained choice is permanent '
+               '(conditionally active choices need not all be active together, a permutation of the active ones may '
+               'exist)', detail2)
     f2 = ctx.fn(f'{DSG}.constrain_choices')
     t2 = FnText(ctx, f2)
     ok = 'choice_nodes = self.ordered_choice_nodes(choice_nodes)' in t2
@@ -386,6 +432,14 @@ def check(ctx):
 from ..selftest import V  # noqa: E402
 
 VARIANTS = [
+    V('permutation-overflow-for-conditional-choices', 'graph/choice_constraints.py',
+      [("    if choice_constraint.type == ChoiceConstraintType.PERMUTATION \\\n            and all(node in permanent_nodes for node in choice_constraint.nodes):\n        n_dec = len(choice_constraint.nodes)\n        n_opt_max",
+        "    if choice_constraint.type == ChoiceConstraintType.PERMUTATION:\n        n_dec = len(choice_constraint.nodes)\n        n_opt_max")],
+      key='permutation-overflow-only-if-all-permanent'),
+    V('permutation-overflow-guard-clause', 'graph/choice_constraints.py',
+      [("    if choice_constraint.type == ChoiceConstraintType.PERMUTATION \\\n            and all(node in permanent_nodes for node in choice_constraint.nodes):\n        n_dec = len(choice_constraint.nodes)\n        n_opt_max",
+        "    is_all_permanent = all(node in permanent_nodes for node in choice_constraint.nodes)\n    if choice_constraint.type == ChoiceConstraintType.PERMUTATION and not is_all_permanent:\n        return []\n    if choice_constraint.type == ChoiceConstraintType.PERMUTATION:\n        n_dec = len(choice_constraint.nodes)\n        n_opt_max")],
+      expect='silent', why='the all-permanent test hoisted into a flag and a guard clause'),
     V('forced-choice-skips-removal', 'graph/adsg.py',
       [("        # Get index of decision and chosen option node\n        for i_dec, dec_node in enumerate(choice_constraint.nodes):", "        if len(self.get_option_nodes(sel_choice_node)) <= 1:\n            return []\n\n        # Get index of decision and chosen option node\n        for i_dec, dec_node in enumerate(choice_constraint.nodes):")], key='removal-evaluated-unless-unconstrained'),
     V('unordered-slice-shift', 'graph/choice_constraints.py',
